@@ -682,3 +682,6 @@ M('cli-ipc-clash-loop-stuck', ['C12'], CLI, '''                        new_sourc
 M('cli-ipc-branch-inverted', ['C12'], CLI, '''                if ipc:\n                    new_source = f"ipc://''', '''                if not ipc:\n                    new_source = f"ipc://''', ['C12.R9'])
 M('cli-passthrough-drops-other-keys', ['C12'], CLI, "**{k: v for k, v in config.items() if k not in PARAM_ORDER},", "**{k: v for k, v in config.items() if k in PARAM_ORDER},", ['C12.R11'])
 M('cli-passthrough-ordered-absent-keys', ['C12'], CLI, "**{k: config[k] for k in PARAM_ORDER if k in config},", "**{k: config.get(k) for k in PARAM_ORDER},", ['C12.R11'])
+
+M('cli-chain-source-presence-inverted', ['C12'], CLI, '''        if ("outputs" not in config or config.outputs) and filter_can_do_filter_outputs(''', '''        if ("outputs" in config or config.outputs) and filter_can_do_filter_outputs(''', ['C12.R5'])
+M('cli-chain-sink-presence-inverted', ['C12'], CLI, '''        if last_source and "sources" not in config:''', '''        if last_source and "sources" in config:''', ['C12.R5'])
